@@ -8,6 +8,8 @@ import Gsd.Driver.C10
 import Gsd.Driver.C11
 import Gsd.Driver.C12
 import Gsd.Driver.C13
+import Gsd.Driver.C14
+import Gsd.Driver.C15
 import Gsd.Driver.C16
 import Gsd.Driver.C17
 import Gsd.Driver.C18
@@ -24,6 +26,8 @@ def main (args : List String) : IO UInt32 := do
   | "C11" :: rest => Gsd.Driver.C11.main rest
   | "C12" :: rest => Gsd.Driver.C12.main rest
   | "C13" :: rest => Gsd.Driver.C13.main rest
+  | "C14" :: rest => Gsd.Driver.C14.main rest
+  | "C15" :: rest => Gsd.Driver.C15.main rest
   | "C16" :: rest => Gsd.Driver.C16.main rest
   | "C17" :: rest => Gsd.Driver.C17.main rest
   | "C18" :: rest => Gsd.Driver.C18.main rest
